@@ -16,6 +16,7 @@ import (
 	"path/filepath"
 	"sort"
 	"strings"
+	"syscall"
 	"time"
 )
 
@@ -285,7 +286,7 @@ func concRunBatch(o *Opts, tmp string, k int, b concBatch) (lines []concLine, no
 	cmd.Env = append(os.Environ(), fmt.Sprintf("CONC_BASE_INDEX=%d", b.base), "GOTRACEBACK=all")
 	if b.race {
 		pref := filepath.Join(tmp, fmt.Sprintf("race_%d", k))
-		cmd.Env = append(cmd.Env, "GORACE=halt_on_error=0 log_path="+pref, "CONC_RACE_LOG="+pref)
+		cmd.Env = append(cmd.Env, "GORACE=halt_on_error=0 exitcode=0 log_path="+pref, "CONC_RACE_LOG="+pref)
 	}
 	var out strings.Builder
 	cmd.Stdout, cmd.Stderr = &out, &out
@@ -300,8 +301,14 @@ func concRunBatch(o *Opts, tmp string, k int, b concBatch) (lines []concLine, no
 	case err = <-done:
 	case <-time.After(b.timeout):
 		killed = true
-		_ = cmd.Process.Kill()
-		err = <-done
+		// SIGQUIT makes the Go runtime print all goroutine stacks before exiting
+		_ = cmd.Process.Signal(syscall.SIGQUIT)
+		select {
+		case err = <-done:
+		case <-time.After(5 * time.Second):
+			_ = cmd.Process.Kill()
+			err = <-done
+		}
 	}
 	outPath := filepath.Join(tmp, fmt.Sprintf("conc_child_%d.jsonl", k))
 	if f, e := os.Open(outPath); e == nil {
@@ -331,9 +338,21 @@ func concRunBatch(o *Opts, tmp string, k int, b concBatch) (lines []concLine, no
 		c.Result = res
 		lines = append(lines, concLine{Case: c, Coq: concCoqCase(&c)})
 		_ = os.Remove(curPath)
-	} else if err != nil && !killed {
-		if ee, ok := err.(*exec.ExitError); !ok || ee.ExitCode() != 3 {
-			note = fmt.Sprintf("child %d exited with %v: %s", k, err, concTail(out.String(), 1500))
+	} else if killed || err != nil {
+		ee, isExit := err.(*exec.ExitError)
+		if killed || !isExit || ee.ExitCode() != 3 {
+			// the child stopped outside a run (while generating the next workload, which executes it on a
+			// sequential core first): reported as a case of its own so that it cannot get lost
+			res := &ConcResult{Counters: map[string]uint64{}, ClassEdges: map[string]uint64{}}
+			if killed {
+				res.Blocked = []string{"child process blocked outside a concurrent run (sequential pre-run of the next workload); killed by the parent after " + b.timeout.String()}
+				res.Dump = concTail(out.String(), 20000)
+			} else {
+				res.Fatal = concHead(out.String(), 12000)
+			}
+			c := ConcCase{Mode: "seq", Result: res}
+			lines = append(lines, concLine{Case: c, Coq: concCoqCase(&c)})
+			note = fmt.Sprintf("child %d stopped outside a run (killed=%v err=%v)", k, killed, err)
 		}
 	}
 	return lines, note
@@ -387,7 +406,7 @@ func concEngine(o *Opts) {
 	var lines []concLine
 	var notes []string
 	const batchSize = 6
-	perCase := 45 * time.Second
+	perCase := 30 * time.Second
 	if o.Replay != "" {
 		var all ConcCases
 		readJSON(o.Replay, &all)
